@@ -7,5 +7,10 @@ import HH.Hex
 import HH.Intrin.X86
 import HH.Sse
 import HH.Avx
+import HH.Intrin.Neon
+import HH.Neon
+import HH.Intrin.Wasm
+import HH.WasmB
+import HH.PortablePanic
 import HH.Dispatch
 import HH.Machine
